@@ -58,7 +58,7 @@ fn main() {
     for cfgname in &cfgs {
         let cfg = Config::named(cfgname);
         let mut w = Walker { cfg: &cfg, env: Env::default(), root: root.clone(), renames: HashMap::new(), cur_mod: Default::default() };
-        w.walk_file(&root.join("lib.rs"), "crate");
+        w.walk_file(&root.join("lib.rs"), "crate"); w.add_trait_defaults();
         let env = std::mem::take(&mut w.env);
         let mut lowered: BTreeMap<usize, (usize, Ir)> = BTreeMap::new(); let mut errs: BTreeMap<usize, String> = BTreeMap::new();
         for (i, f) in env.fns.iter().enumerate() {
